@@ -17,6 +17,9 @@ struct PeerStream {
     peer_closed: bool,    // peer sent END_STREAM or RST
     we_closed: bool,      // we sent END_STREAM or RST
     responded: bool,      // client role: peer sent final response HEADERS
+    we_reset: bool,       // we sent RST_STREAM
+    we_reset_code: u32,
+    peer_reset: bool,     // the peer sent RST_STREAM
 }
 
 struct G<'a> {
@@ -34,6 +37,8 @@ struct G<'a> {
     next_peer_sid: u32,
     woken: BTreeSet<String>,
     dead: bool,
+    last_st: String,
+    reset_default: bool,
     accepted: BTreeSet<u32>,
     flavor: &'static str,
 }
@@ -87,6 +92,8 @@ impl<'a> G<'a> {
                         if let Some(s) = self.streams.get_mut(&sid) {
                             s.we_closed = true;
                             s.peer_closed = true;
+                            s.we_reset = true;
+                            s.we_reset_code = p.get(2).and_then(|c| c.parse().ok()).unwrap_or(0);
                         }
                     }
                     "W" => {
@@ -123,6 +130,10 @@ impl<'a> G<'a> {
             for w in wk.split(',') {
                 self.woken.insert(w.to_string());
             }
+        }
+        let st = Self::field(ans, "st=");
+        if st != "-" {
+            self.last_st = st.to_string();
         }
         let r = Self::field(ans, "r=");
         if r == "done" || r.starts_with("err:") && ans.starts_with("r=err") && Self::field(ans, "st=").contains("K:Closed") {
@@ -363,6 +374,7 @@ impl<'a> G<'a> {
                     if let Some(s) = self.streams.get_mut(&sid) {
                         s.peer_closed = true;
                         s.we_closed = true;
+                        s.peer_reset = true;
                     }
                     self.peer(wire(3, 0, sid, &code.to_be_bytes()));
                 }
@@ -464,6 +476,7 @@ impl<'a> G<'a> {
                     if let Some(s) = self.streams.get_mut(&sid) {
                         s.peer_closed = true;
                         s.we_closed = true;
+                        s.peer_reset = true;
                     }
                     let code = *self.rng.pick(&[8u32, 8, 0, 5]);
                     self.peer(wire(3, 0, sid, &code.to_be_bytes()));
@@ -576,6 +589,125 @@ impl<'a> G<'a> {
         }
     }
 
+    /// the endpoint's send window for a stream (0 = the connection), read from the digest
+    fn send_window(&self, sid: u32) -> i64 {
+        let key = if sid == 0 { "C:".to_string() } else { format!("S{}:", sid) };
+        for seg in self.last_st.split('|') {
+            if let Some(rest) = seg.strip_prefix(key.as_str()) {
+                let f: Vec<&str> = rest.split(',').collect();
+                let idx = if sid == 0 { 0 } else { 1 };
+                return f.get(idx).and_then(|x| x.parse().ok()).unwrap_or(0);
+            }
+        }
+        0
+    }
+
+    /// C09: after a legal prefix inject ONE frame of a known class and watch the reaction.
+    /// `conn` = must end in GOAWAY with an error code; `stream` = at least RST_STREAM for that stream;
+    /// `tolerate` = no error at all, the connection keeps answering.
+    fn inject_c09(&mut self) {
+        let client = self.role == "client";
+        self.op("cn_budget inf".to_string());
+        self.ack_settings();
+        self.op("cn_poll".to_string());
+        if self.dead {
+            return;
+        }
+        // streams by state, from the peer's point of view
+        let open_both = self.live_sids(|s| s.headers_seen && !s.peer_closed && !s.we_closed && (s.responded || !client));
+        let peer_done = self.live_sids(|s| s.headers_seen && s.peer_closed && !s.we_closed && s.responded);
+        let unused_peer_id: u32 = if client { 2 + 2 * self.rng.below(50) as u32 } else { self.next_peer_sid + 2 * self.rng.below(3) as u32 };
+        let some_sid = *open_both.first().unwrap_or(&0);
+        let mut cands: Vec<(&'static str, u32, Vec<u8>)> = vec![
+            ("conn", 0, wire(0, 0, 0, b"abc")),                              // DATA on stream 0
+            ("conn", 0, wire(1, 4, 0, &[0x88])),                             // HEADERS on stream 0
+            ("conn", 0, wire(3, 0, 0, &8u32.to_be_bytes())),                 // RST_STREAM on stream 0
+            ("conn", 0, wire(2, 0, 0, &[0, 0, 0, 1, 16])),                   // PRIORITY on stream 0
+            ("conn", 0, wire(9, 4, 1, &[0x88])),                             // CONTINUATION without a header block
+            ("conn", 0, wire(4, 0, 1, &[])),                                 // SETTINGS on a stream
+            ("conn", 0, wire(6, 0, 1, &[0; 8])),                             // PING on a stream
+            ("conn", 0, wire(7, 0, 1, &[0; 8])),                             // GOAWAY on a stream
+            ("conn", 0, wire(6, 0, 0, &[0; 7])),                             // PING of 7 octets
+            ("conn", 0, wire(3, 0, 1, &[0; 5])),                             // RST_STREAM of 5 octets
+            ("conn", 0, wire(8, 0, 0, &[0; 3])),                             // WINDOW_UPDATE of 3 octets
+            ("conn", 0, wire(4, 0, 0, &[0; 5])),                             // SETTINGS not a multiple of 6
+            ("conn", 0, wire(4, 1, 0, &[0; 6])),                             // SETTINGS ACK with a payload
+            ("conn", 0, wire(7, 0, 0, &[0; 7])),                             // GOAWAY of 7 octets
+            ("conn", 0, wire(4, 0, 0, &[0, 2, 0, 0, 0, 2])),                 // ENABLE_PUSH = 2
+            ("conn", 0, wire(4, 0, 0, &[0, 4, 0x80, 0, 0, 0])),              // INITIAL_WINDOW_SIZE = 2^31
+            ("conn", 0, wire(4, 0, 0, &[0, 5, 0, 0, 0x3f, 0xff])),           // MAX_FRAME_SIZE = 2^14 - 1
+            ("conn", 0, wire(8, 0, 0, &0u32.to_be_bytes())),                 // WINDOW_UPDATE(0) on the connection
+            ("conn", 0, wire(1, 4, 1 + 2 * self.rng.below(3) as u32, &[0xff, 0xff, 0xff, 0xff, 0xff, 0x7f])), // HPACK integer overflow
+            ("tolerate", 0, wire(6, 1, 0, &[9; 8])),                         // PING ACK nobody asked for
+            ("tolerate", 0, wire(0x42, 0xff, 0, b"whatever")),               // unknown frame type
+            ("tolerate", 0, wire(0x17, 0, 3, &[])),                          // unknown frame type on a stream
+            ("tolerate", 0, wire(4, 0, 0, &[0, 0x99, 0, 0, 0, 7])),          // unknown setting
+            ("tolerate", 0, wire(2, 0, 1 + 2 * self.rng.below(60) as u32, &[0, 0, 0, 0, 200])), // PRIORITY anywhere
+            ("tolerate", 0, wire(2, 0, 2 + 2 * self.rng.below(60) as u32, &[0x80, 0, 0, 3, 0])),
+        ];
+        if client {
+            cands.push(("conn", 0, wire(1, 4, unused_peer_id, &[0x88])));                         // server opens a stream with HEADERS
+            cands.push(("conn", 0, wire(5, 4, some_sid.max(1), &[0, 0, 0, 1, 0x82, 0x86, 0x84]))); // PUSH_PROMISE promising an odd id
+        } else {
+            cands.push(("conn", 0, wire(5, 4, 1, &[0, 0, 0, 2, 0x82, 0x86, 0x84])));              // PUSH_PROMISE to a server
+            cands.push(("conn", 0, wire(1, 4, 2 + 2 * self.rng.below(5) as u32, &[0x82, 0x86, 0x84]))); // client uses an even id
+            if self.next_peer_sid > 3 && self.streams.get(&1).map(|s| !s.we_reset && !s.peer_reset).unwrap_or(true) {
+                cands.push(("streamorconn", 1, wire(1, 4, 1, &[0x00, 0x01, b'a', 0x01, b'b'])));  // a second HEADERS without END_STREAM on an old stream
+            }
+        }
+        if self.send_window(0) >= 1 {
+            cands.push(("conn", 0, wire(8, 0, 0, &0x7fff_ffffu32.to_be_bytes())));                // connection window overflow
+        }
+        if let Some(sid) = open_both.first() {
+            cands.push(("stream", *sid, wire(8, 0, *sid, &0u32.to_be_bytes())));                  // WINDOW_UPDATE(0) on a stream
+            if self.send_window(*sid) >= 1 {
+                cands.push(("stream", *sid, wire(8, 0, *sid, &0x7fff_ffffu32.to_be_bytes())));    // stream window overflow
+            }
+            if self.streams[sid].credit >= 5 && self.conn_credit >= 5 {
+                cands.push(("tolerate", *sid, wire(0, 8, *sid, &[3, b'x', 0, 0, 0])));            // padded DATA
+            }
+        }
+        if let Some(sid) = peer_done.first() {
+            if self.conn_credit >= 4 {
+                cands.push(("streamorconn", *sid, wire(0, 0, *sid, b"late")));                    // DATA after END_STREAM
+            }
+            cands.push(("tolerate", *sid, wire(8, 0, *sid, &5u32.to_be_bytes())));                // WINDOW_UPDATE on a half-closed stream
+        }
+        // frames for a stream the endpoint has just reset (it must tolerate what was in flight)
+        let reset_by_us: Vec<u32> = self.streams.iter().filter(|(_, s)| s.we_reset && !s.peer_reset && s.headers_seen).map(|(k, _)| *k).collect();
+        // `tolerate` when the tolerance window is the configured default (30 s, 10 streams); with a window of
+        // zero seconds or streams the endpoint may answer with another RST_STREAM, but must not kill the connection
+        // (STREAM_CLOSED was the answer to a frame on a stream the endpoint had already forgotten: same there)
+        let forgotten = reset_by_us.last().map(|sid| [5u32, 7].contains(&self.streams[sid].we_reset_code)).unwrap_or(false);
+        let race = if self.reset_default && reset_by_us.len() <= 10 && !forgotten { "tolerate" } else { "nokill" };
+        if let Some(sid) = reset_by_us.last() {
+            if self.conn_credit >= 9 {
+                cands.push((race, *sid, wire(0, 0, *sid, b"in flight")));
+            }
+            cands.push((race, *sid, wire(8, 0, *sid, &100u32.to_be_bytes())));
+            cands.push((race, *sid, wire(3, 0, *sid, &8u32.to_be_bytes())));
+            if client {
+                cands.push((race, *sid, wire(1, 5, *sid, &[0x88])));
+                // a push promised before the peer saw our reset, and the pushed response after it (F20)
+                let promised = 2 + 2 * (self.rng.below(40) as u32 + 50);
+                let mut b = wire(5, 4, *sid, &[&promised.to_be_bytes()[..], &[0x82, 0x86, 0x84, 0x41, 0x01, b'a']].concat());
+                b.extend(wire(1, 5, promised, &[0x88]));
+                if self.reset_default && reset_by_us.len() <= 10 {
+                    // the endpoint refuses the promised stream; it must not die
+                    cands.push(("nokill", promised, b));
+                }
+            }
+        }
+        let (class, sid, bytes) = cands[self.rng.below(cands.len() as u64) as usize].clone();
+        self.op(format!("cn_note c09 {} {}", class, sid));
+        self.peer(bytes);
+        self.op("cn_poll".to_string());
+        // is the endpoint still answering?
+        self.peer(wire(6, 0, 0, &[0xc0, 9, 0xc0, 9, 0xc0, 9, 0xc0, 9]));
+        self.op("cn_poll".to_string());
+        self.op("cn_note c09 verdict 0".to_string());
+    }
+
     /// cooperative drain: acknowledge settings, open budgets, poll until nothing moves
     fn drain(&mut self) {
         self.op("cn_budget inf".to_string());
@@ -595,6 +727,8 @@ pub fn generate(profile: &str, rng: &mut Rng, cases: usize, out: &mut dyn Write)
         "conn-client" => ("client", "mixed"),
         "conn-client-flow" => ("client", "flow"),
         "conn-server" => ("server", "mixed"),
+        "conn-c09-client" => ("client", "c09"),
+        "conn-c09-server" => ("server", "c09"),
         _ => return false,
     };
     for _ in 0..cases {
@@ -637,6 +771,8 @@ pub fn generate(profile: &str, rng: &mut Rng, cases: usize, out: &mut dyn Write)
             next_peer_sid: 1,
             woken: BTreeSet::new(),
             dead: false,
+            last_st: String::new(),
+            reset_default: !opts.iter().any(|o: &String| o.starts_with("reset_")),
             accepted: BTreeSet::new(),
             flavor,
         };
@@ -660,7 +796,7 @@ pub fn generate(profile: &str, rng: &mut Rng, cases: usize, out: &mut dyn Write)
         g.op("cn_poll".to_string());
         g.ack_settings();
         g.op("cn_poll".to_string());
-        let nops = 20 + g.rng.below(180);
+        let nops = if flavor == "c09" { 5 + g.rng.below(60) } else { 20 + g.rng.below(180) };
         for _ in 0..nops {
             if g.dead {
                 break;
@@ -671,7 +807,9 @@ pub fn generate(profile: &str, rng: &mut Rng, cases: usize, out: &mut dyn Write)
                 g.step_server();
             }
         }
-        if !g.dead {
+        if !g.dead && flavor == "c09" {
+            g.inject_c09();
+        } else if !g.dead {
             g.drain();
         }
     }
